@@ -3,9 +3,9 @@ package main
 // C13 — obfs3 and UniformDH (DESIGN 4, C13).
 
 import (
-	"go/types"
 	"fmt"
 	"go/token"
+	"go/types"
 	"strings"
 
 	"golang.org/x/tools/go/ssa"
